@@ -86,11 +86,41 @@ def box_st(draw, d):
 
 
 @st.composite
-def system_st(draw, frames=(1, 3), nmax=30, kmax=6):
+def frame_labels_st(draw, types, T):
+    """Per-frame species labels of a swap-Monte-Carlo / `fix atom/swap` trajectory: every frame carries its own
+    arrangement of the SAME multiset of labels (composition fixed).  Frame 0 keeps `types`; at least one later frame
+    differs from frame 0.  Needs >= 2 species and T >= 2."""
+    types = np.asarray(types)
+    N = len(types)
+    out = [types.copy()]
+    for _ in range(T - 1):
+        how = draw(st.sampled_from(["shuffle", "swap", "swap"]))
+        if how == "shuffle":
+            perm = np.array(draw(st.permutations(range(N))))
+            out.append(types[perm])
+        else:  # a few identity swaps of unlike particles, starting from the previous frame (what swap MC does)
+            t = out[-1].copy()
+            for _ in range(draw(st.integers(1, 3))):
+                i = draw(st.integers(0, N - 1))
+                other = np.flatnonzero(t != t[i])
+                j = int(other[draw(st.integers(0, len(other) - 1))])
+                t[i], t[j] = t[j], t[i]
+            out.append(t)
+    if all(np.array_equal(t, types) for t in out[1:]):
+        t = out[-1].copy()
+        i = int(np.flatnonzero(t == 1)[0])
+        j = int(np.flatnonzero(t == 2)[0])
+        t[i], t[j] = t[j], t[i]
+        out[-1] = t
+    return out
+
+
+@st.composite
+def system_st(draw, frames=(1, 3), nmax=30, kmax=6, nmin=2, labels=True):
     d = draw(st.sampled_from([2, 3]))
     cell = draw(box_st(d))
     K = draw(st.sampled_from([k for k in (1, 2, 2, 3, 3, 4, 4, 5, 5, 6) if k <= kmax]))
-    f0, kind = draw(gen.frac_config_st(d, nmin=max(2, K), nmax=nmax))
+    f0, kind = draw(gen.frac_config_st(d, nmin=max(nmin, K), nmax=nmax))
     N = len(f0)
     T = draw(st.integers(*frames))
     fr = [f0] + [draw(gen.frac_st(N, d)) for _ in range(T - 1)]
@@ -99,12 +129,34 @@ def system_st(draw, frames=(1, 3), nmax=30, kmax=6):
         offs = draw(hnp.arrays(np.int64, (N, d), elements=st.integers(-2, 2))).astype(float)
     pos = [cell["lo"] + (f + offs) @ cell["H"] for f in fr]
     types = draw(gen.types_st(N, K))
+    # class "labels-per-frame" (EXTENSION_1 item 6): ~40 % of the multi-frame cases with partial columns
+    types_frames = None
+    if labels and T >= 2 and 2 <= K <= 5 and draw(st.sampled_from([True, True, False, False, False])):
+        types_frames = draw(frame_labels_st(types, T))
     t0 = draw(st.integers(0, 10 ** 6))
     dt = draw(st.integers(1, 5000))
     outfile = draw(st.booleans())
-    return {"d": d, "cell": cell, "pos": pos, "types": types, "K": K, "kind": kind,
+    return {"d": d, "cell": cell, "pos": pos, "types": types, "types_frames": types_frames, "K": K, "kind": kind,
             "timesteps": [t0 + k * dt for k in range(T)], "outside": bool(np.any(offs)),
             "outfile": outfile, "saveq": bool(outfile and draw(st.booleans()))}
+
+
+def labels_of(case):
+    """Label array of every frame (list of T arrays)."""
+    tf = case.get("types_frames")
+    if tf is None:
+        return [np.asarray(case["types"])] * len(case["pos"])
+    return [np.asarray(t) for t in tf]
+
+
+def snapshots_of(case):
+    """Like gen.snapshots_from, but every frame gets its own label array (gen.snapshots_from only knows one array
+    for all frames).  Every SingleSnapshot owns fresh copies of positions and labels."""
+    from PyMatterSim.reader.reader_utils import Snapshots
+
+    snaps = [gen.snapshot_from(case["cell"], p, t, ts)
+             for p, t, ts in zip(case["pos"], labels_of(case), case["timesteps"])]
+    return Snapshots(nsnapshots=len(snaps), snapshots=snaps)
 
 
 @st.composite
@@ -193,9 +245,11 @@ def compare_with_reference(case, nvec, res, tagprefix=""):
     d, K = case["d"], case["K"]
     L = np.diag(case["cell"]["H"])
     types = case["types"]
+    labels = labels_of(case)
     cols = sqref.column_names(K)
     columns("sq.getresults()", res, cols)
-    pv, counts = sqref.per_vector(case["pos"], types, nvec, L)
+    # frame k is evaluated with frame k's own labels (the counts N_a are those of the trajectory)
+    pv, counts = sqref.per_vector(case["pos"], labels, nvec, L)
     if sqref.boundary_ambiguous(pv["q"]):
         return {"nontrivial": False, "tags": ["excluded-boundary"], "extra": {"excluded_boundary": 1}}
     exp, gsize = sqref.grouped(pv, cols)
@@ -269,21 +323,28 @@ def compare_with_reference(case, nvec, res, tagprefix=""):
         tags.append("duplicate-vectors")
     if counts.min() == 1 and K > 1:
         tags.append("some-N_a=1")
+    if len(case["pos"]) >= 2 and 2 <= K <= 5:
+        moved = sum(int(np.any(t != labels[0])) for t in labels[1:])
+        tags.append("labels-per-frame" if moved else "labels-same-in-all-frames")
     if case["outfile"]:
         tags.append("csv")
     if case["saveq"]:
         tags.append("qvectors-csv")
     nontrivial = bool(2 <= K <= 5 and uneq_counts and nuniqL > 1 and shared)
-    return {"nontrivial": nontrivial, "tags": tags, "extra": {"vectors": int(len(nvec)), "groups": int(G)}}
+    return {"nontrivial": nontrivial, "tags": tags, "extra": {"vectors": int(len(nvec)), "groups": int(G)},
+            "_exp": exp}
 
 
 def check_explicit(case):
-    snaps = gen.snapshots_from(case)
-    qv = case["qvector"]
-    qin = qv.copy()
+    snaps = snapshots_of(case)
+    qin = case["qvector"]
+    qv = qin.copy()
     res = sq(snaps, qvector=qv, saveqvectors=case["saveq"],
              outputfile="sq_out.csv" if case["outfile"] else None).getresults()
     info = compare_with_reference(case, qin, res)
+    info.pop("_exp", None)
+    if "excluded-boundary" in info["tags"]:
+        return info
     info["tags"].append("qdtype-" + str(qin.dtype))
     info["tags"].append("nvec<=8" if len(qin) <= 8 else "nvec>8")
     return info
@@ -296,12 +357,16 @@ def check_range(case):
     x = qrange * 2.0 / (2.0 * np.pi / L).min()
     if abs(x - round(x)) < 1e-6 or int(x) != m:
         return {"nontrivial": False, "tags": ["excluded-numofq-ambiguous"], "extra": {"excluded_numofq": 1}}
-    snaps = gen.snapshots_from(case)
+    snaps = snapshots_of(case)
     res = sq(snaps, qrange=qrange, onlypositive=op, saveqvectors=case["saveq"],
              outputfile="sq_out.csv" if case["outfile"] else None).getresults()
     nvec = np.array(sqref.default_vectors(d, m, op), dtype=np.int64).reshape(-1, d)
-    require(len(nvec) > 0, "harness: empty default set generated")
+    if len(nvec) == 0:
+        raise RuntimeError("harness: empty default set generated")
     info = compare_with_reference(case, nvec, res)
+    info.pop("_exp", None)
+    if "excluded-boundary" in info["tags"]:
+        return info
     info["tags"] += [f"onlypositive={op!r}", "numofq-odd" if m % 2 else "numofq-even",
                      "numofq<=6" if m <= 6 else ("numofq<=12" if m <= 12 else "numofq>12")]
     return info
@@ -310,6 +375,7 @@ def check_range(case):
 def describe(case):
     out = {"d": case["d"], "L": np.diag(case["cell"]["H"]).tolist(), "lo": np.round(case["cell"]["lo"], 4).tolist(),
            "K": case["K"], "types": np.asarray(case["types"]).tolist(), "frames": len(case["pos"]),
+           "types_frames": None if case.get("types_frames") is None else [np.asarray(t).tolist() for t in case["types_frames"]],
            "pos0": np.round(case["pos"][0][:3], 4).tolist(), "outfile": case["outfile"], "saveq": case["saveq"]}
     if case.get("mode") == "explicit":
         out["qvector"] = np.asarray(case["qvector"]).tolist()[:12]
@@ -355,7 +421,7 @@ def lattice_case(draw):
 def check_lattice(case):
     d, K, reps = case["d"], case["K"], np.array(case["reps"])
     L = np.diag(case["cell"]["H"])
-    snaps = gen.snapshots_from(case)
+    snaps = snapshots_of(case)
     nvec = case["qvector"]
     res = sq(snaps, qvector=nvec.copy()).getresults()
     cols = sqref.column_names(K)
@@ -392,10 +458,13 @@ def describe_lattice(case):
 # ----------------------------------------------------------------------------- exhaustive default set
 
 
-def _check_default_set(case):
+def _default_set_call(case):
+    """One call of choosewavevector compared with the enumerated documented set.  Returns (expected sorted list of
+    tuples, the array the library returned)."""
     d, numofq, op = case["d"], case["numofq"], case["onlypositive"]
     want = sqref.default_vectors(d, numofq, op)
-    got = arr(f"choosewavevector({d}, {numofq}, {op!r})", choosewavevector(d, numofq, op), ndim=2)
+    ret = choosewavevector(d, numofq, op)
+    got = arr(f"choosewavevector({d}, {numofq}, {op!r})", ret, ndim=2)
     require(got.shape[1] == d or got.shape[0] == 0, f"choosewavevector({d}, {numofq}, {op!r}): shape {got.shape}")
     require(got.size == 0 or np.all(got == np.rint(got)), "non-integer wave vectors")
     rows = sorted(tuple(int(c) for c in r) for r in got.reshape(-1, d).tolist())
@@ -405,7 +474,11 @@ def _check_default_set(case):
         rep = len(rows) - len(set(rows))
         raise Violation(f"choosewavevector({d}, {numofq}, {op!r}): {len(rows)} vectors, expected {len(want)}; "
                         f"unexpected {extra}, missing {missing}, repeated {rep}")
-    return want
+    return want, ret
+
+
+def _check_default_set(case):
+    return _default_set_call(case)[0]
 
 
 def enum_default_vectors(tier):
@@ -435,6 +508,402 @@ _enum = Facet("default_vectors", check=enum_default_vectors, exhaustive=True,
                    "documented; non-trivial = the expected set is not empty")
 _enum.replay = _check_default_set
 
+# ----------------------------------------------------------------------------- minimal sizes
+
+
+def _range_for(draw, L, m):
+    """A qrange for which numofq = int(2 qrange / min(2 pi / L)) = m, away from the integer boundaries."""
+    f = draw(st.one_of(st.sampled_from([0.05, 0.5, 0.95]), fl(0.05, 0.95)))
+    return float((m + f) * np.pi / float(np.max(L)))
+
+
+@st.composite
+def minimal_case(draw):
+    d = draw(st.sampled_from([2, 3]))
+    cell = draw(box_st(d))
+    L = np.diag(cell["H"])
+    shape = draw(st.sampled_from(["N=K", "N=K", "N=1", "N=2", "one-rare-species", "K=6", "small"]))
+    if shape == "N=K":
+        K = draw(st.integers(1, 6))
+        N = K
+    elif shape == "N=1":
+        K = N = 1
+    elif shape == "N=2":
+        K = draw(st.sampled_from([1, 2]))
+        N = 2
+    elif shape == "one-rare-species":
+        K = draw(st.integers(2, 5))
+        N = draw(st.integers(K + 1, 9))
+    elif shape == "K=6":
+        K = 6
+        N = draw(st.integers(6, 8))
+    else:
+        K = draw(st.integers(1, 5))
+        N = draw(st.integers(max(K, 2), 6))
+    if shape == "one-rare-species":
+        rare = draw(st.integers(1, K))
+        others = [a for a in range(1, K + 1) if a != rare]
+        t = [rare] + others + [others[draw(st.integers(0, len(others) - 1))] for _ in range(N - K)]
+        perm = draw(st.permutations(range(N)))
+        types = np.array([t[i] for i in perm], dtype=int)
+    else:
+        types = draw(gen.types_st(N, K))
+    T = draw(st.sampled_from([1, 1, 1, 2, 3]))
+    fr = [draw(gen.frac_st(N, d)) for _ in range(T)]
+    offs = np.zeros((N, d))
+    if draw(st.booleans()):
+        offs = draw(hnp.arrays(np.int64, (N, d), elements=st.integers(-2, 2))).astype(float)
+    pos = [cell["lo"] + (f + offs) @ cell["H"] for f in fr]
+    types_frames = None
+    if T >= 2 and 2 <= K <= 5 and draw(st.booleans()):
+        types_frames = draw(frame_labels_st(types, T))
+    outfile = draw(st.booleans())
+    case = {"d": d, "cell": cell, "pos": pos, "types": types, "types_frames": types_frames, "K": K, "kind": "gas",
+            "timesteps": [7 + 10 * k for k in range(T)], "outside": bool(np.any(offs)),
+            "outfile": outfile, "saveq": bool(outfile and draw(st.booleans())), "shape": shape}
+    qmode = draw(st.sampled_from(["one-vector", "one-vector", "one-group", "two-groups",
+                                  "smallest-range", "smallest-range"]))
+    case["qmode"] = qmode
+    if qmode == "smallest-range":
+        ops = [False, False, True, True, "x", "y"] + (["z"] if d == 3 else [])
+        op = draw(st.sampled_from(ops))
+        # smallest numofq whose documented set is not empty: 2 (and 3: same half width) for the full set,
+        # 4 (and 5) as soon as a strictly positive component is needed
+        m = (2 if op is False else 4) + draw(st.integers(0, 1))
+        case.update(mode="range", onlypositive=op, m=m, qrange=_range_for(draw, L, m))
+        return case
+    v = np.array(draw(st.one_of(st.sampled_from(PYTH[d]),
+                                st.tuples(*[st.integers(-6, 6)] * d))), dtype=np.int64)
+    if not v.any():
+        v[draw(st.integers(0, d - 1))] = draw(st.sampled_from([-3, -1, 1, 2, 5]))
+    if qmode == "one-vector":
+        rows = [v]
+    elif qmode == "one-group":  # every row has exactly the same |q|: one output row
+        rows = [v]
+        for _ in range(draw(st.integers(1, 3))):
+            signs = np.array([draw(st.sampled_from([-1, 1])) for _ in range(d)])
+            rows.append(v * signs)
+    else:
+        rows = [v, draw(st.sampled_from([2, 3, -2])) * v]
+    case.update(mode="explicit", qvector=np.array(rows, dtype=draw(st.sampled_from([np.int64, np.int32]))))
+    return case
+
+
+def check_minimal(case):
+    info = check_explicit(case) if case["mode"] == "explicit" else check_range(case)
+    excluded = any(t.startswith("excluded") for t in info["tags"])
+    N = len(case["types"])
+    info["tags"] += ["shape:" + case["shape"], "q:" + case["qmode"], f"N={N}" if N <= 3 else "N>3"]
+    if N == case["K"]:
+        info["tags"].append("all-N_a=1")
+    info["nontrivial"] = not excluded
+    return info
+
+
+def describe_minimal(case):
+    out = describe(case)
+    out.update(shape=case["shape"], qmode=case["qmode"])
+    return out
+
+
+# ----------------------------------------------------------------------------- state between calls
+
+REPEAT_VARIANTS = ["two-systems", "two-systems-same-shape", "positions-inplace", "labels-inplace",
+                   "positions+labels-inplace", "qvector-same-shape", "qvector-inplace", "same-object-twice"]
+
+
+@st.composite
+def other_qvector_st(draw, q):
+    """An integer wave-vector list of the SAME shape and dtype as q with other contents (no zero row)."""
+    q = np.asarray(q)
+    how = draw(st.sampled_from(["random", "random", "double", "roll"]))
+    if how == "double":
+        new = 2 * q
+    elif how == "roll":
+        new = np.roll(q, 1, axis=1)
+    else:
+        new = draw(hnp.arrays(np.int64, q.shape, elements=st.integers(-6, 6)))
+        for k, r in enumerate(new):
+            if not r.any():
+                r[k % q.shape[1]] = 1 + k % 3
+    if np.array_equal(new, q):
+        new = -3 * q
+    return new.astype(q.dtype)
+
+
+@st.composite
+def repeat_case(draw):
+    s1 = draw(system_st(frames=(1, 2), nmax=12, kmax=5))
+    d, cell = s1["d"], s1["cell"]
+    L = np.diag(cell["H"])
+    N, T = len(s1["types"]), len(s1["pos"])
+    s1["mode"] = "explicit"
+    s1["qvector"] = draw(qvector_st(d, L)).astype(np.int64)
+    variant = draw(st.sampled_from(REPEAT_VARIANTS))
+    s2 = dict(s1)
+    if variant == "two-systems":
+        s2 = draw(system_st(frames=(1, 2), nmax=12, kmax=5))
+        s2["mode"] = "explicit"
+        s2["qvector"] = draw(qvector_st(s2["d"], np.diag(s2["cell"]["H"]))).astype(np.int64)
+    if variant in ("two-systems-same-shape", "positions-inplace", "positions+labels-inplace"):
+        s2["pos"] = [cell["lo"] + draw(gen.frac_st(N, d)) @ cell["H"] for _ in range(T)]
+        s2["outside"] = False
+    if variant in ("two-systems-same-shape", "labels-inplace", "positions+labels-inplace"):
+        how = draw(st.sampled_from(["permuted", "other-composition", "other-K"]))
+        K2 = s1["K"]
+        if how == "permuted":  # same multiset of labels, other arrangement
+            perm = np.array(draw(st.permutations(range(N))))
+            t2 = np.asarray(s1["types"])[perm]
+        else:
+            if how == "other-K":
+                K2 = draw(st.integers(1, min(5, N)))
+            t2 = draw(gen.types_st(N, K2))
+        s2["types"], s2["K"], s2["types_frames"] = t2, K2, None
+        if T >= 2 and K2 >= 2 and draw(st.booleans()):
+            s2["types_frames"] = draw(frame_labels_st(t2, T))
+    if variant in ("two-systems-same-shape", "qvector-same-shape", "qvector-inplace"):
+        s2["qvector"] = draw(other_qvector_st(s1["qvector"]))
+    return {"variant": variant, "s1": s1, "s2": s2, "twice": bool(variant == "same-object-twice" or draw(st.booleans()))}
+
+
+def _sq_object(snaps, qv, sub):
+    return sq(snaps, qvector=qv, saveqvectors=sub["saveq"], outputfile="sq_out.csv" if sub["outfile"] else None)
+
+
+def _set_inplace(snaps, sub):
+    """Overwrite the arrays of an existing Snapshots object (the arrays keep their identity and shape)."""
+    for snap, p, t in zip(snaps.snapshots, sub["pos"], labels_of(sub)):
+        snap.positions[...] = p
+        snap.particle_type[...] = t
+
+
+def _results_differ(e1, e2):
+    if sorted(e1) != sorted(e2):
+        return True
+    for c in e1:
+        if e1[c].shape != e2[c].shape or np.any(np.abs(e1[c] - e2[c]) > 1e-3):
+            return True
+    return False
+
+
+def check_repeat(case):
+    s1, s2, variant = case["s1"], case["s2"], case["variant"]
+    for sub in (s1, s2):
+        _, qn = sqref.wave_vectors(sub["qvector"], np.diag(sub["cell"]["H"]))
+        if sqref.boundary_ambiguous(qn):
+            return {"nontrivial": False, "tags": ["excluded-boundary"], "extra": {"excluded_boundary": 1}}
+    calls = 0
+
+    def evaluate(obj, sub, what):
+        nonlocal calls
+        calls += 1
+        try:
+            return compare_with_reference(sub, sub["qvector"], obj.getresults())
+        except Violation as v:
+            raise Violation(f"[{variant}: {what}] {v}") from None
+
+    snaps1 = snapshots_of(s1)
+    q1 = s1["qvector"].copy()
+    o1 = _sq_object(snaps1, q1, s1)
+    first = o1.getresults()
+    calls += 1
+    try:
+        info = compare_with_reference(s1, s1["qvector"], first)
+    except Violation as v:
+        raise Violation(f"[{variant}: first call] {v}") from None
+    exp1 = info.pop("_exp")
+    if case["twice"]:
+        evaluate(o1, s1, "second getresults() on the same object")
+        # the frame returned by the first call still shows the values of the definition
+        try:
+            compare_with_reference(s1, s1["qvector"], first)
+        except Violation as v:
+            raise Violation(f"[{variant}: first returned frame after a second getresults()] {v}") from None
+    # ---- state 2
+    inplace = variant in ("positions-inplace", "labels-inplace", "positions+labels-inplace")
+    if variant in ("two-systems", "two-systems-same-shape"):
+        snaps2, q2 = snapshots_of(s2), s2["qvector"].copy()
+    elif inplace:
+        _set_inplace(snaps1, s2)
+        snaps2, q2 = snaps1, q1
+    elif variant == "qvector-same-shape":
+        snaps2, q2 = snaps1, s2["qvector"].copy()
+    elif variant == "qvector-inplace":
+        q1[...] = s2["qvector"]
+        snaps2, q2 = snaps1, q1
+    else:
+        snaps2, q2 = snaps1, q1
+    exp2 = evaluate(_sq_object(snaps2, q2, s2), s2, "new object on the second input").pop("_exp")
+    # ---- back to state 1
+    if inplace:
+        _set_inplace(snaps1, s1)
+    elif variant == "qvector-inplace":
+        q1[...] = s1["qvector"]
+    evaluate(_sq_object(snaps1, q1, s1), s1, "new object on the first input again")
+    # ---- both objects alive, evaluated in the opposite order of their construction
+    if variant in ("two-systems", "two-systems-same-shape", "qvector-same-shape"):
+        oa = _sq_object(snaps1, q1, s1)
+        ob = _sq_object(snaps2, q2, s2)
+        evaluate(ob, s2, "two live objects, second evaluated first")
+        evaluate(oa, s1, "two live objects, first evaluated last")
+    differ = _results_differ(exp1, exp2)
+    tags = ["variant:" + variant] + [t for t in info["tags"] if t in ("d2", "d3") or t.startswith(("K", "frames", "labels-"))]
+    if case["twice"]:
+        tags.append("getresults-twice")
+    if variant != "same-object-twice":
+        tags.append("second-input-changes-result" if differ else "second-input-same-result")
+    if s1["outfile"] or s2["outfile"]:
+        tags.append("csv")
+    return {"nontrivial": bool(differ or variant == "same-object-twice"), "tags": tags, "extra": {"sq_calls": calls}}
+
+
+def describe_repeat(case):
+    out = {"variant": case["variant"], "twice": case["twice"], "first": describe(case["s1"])}
+    if case["variant"] != "same-object-twice":
+        out["second"] = describe(case["s2"])
+    return out
+
+
+# ----------------------------------------------------------------------------- sequences of wave-vector calls
+
+
+def _ops(d):
+    return [False, False, True, True, "x", "y"] + (["z"] if d == 3 else [])
+
+
+def _top(d):
+    return 24 if d == 2 else 12
+
+
+@st.composite
+def wavevector_case(draw):
+    sysc = draw(system_st(frames=(1, 2), nmax=8, kmax=5))
+    d0 = sysc["d"]
+    L = np.diag(sysc["cell"]["H"])
+    d = draw(st.sampled_from([2, 3, d0, d0]))
+    m = draw(st.integers(2, _top(d)))
+    op = draw(st.sampled_from(_ops(d)))
+    steps = []
+    nsq = 0
+    for k in range(draw(st.integers(2, 6))):
+        if k:
+            how = draw(st.sampled_from(["same", "other-op", "other-op", "other-d", "m+1", "m-1", "m+2", "fresh"]))
+            if how == "other-op":
+                op = draw(st.sampled_from([o for o in _ops(d) if o is not op and o != op] or [False]))
+            elif how == "other-d":
+                d = 5 - d
+                m = min(m, _top(d))
+                if op == "z" and d == 2:
+                    op = draw(st.sampled_from(["x", "y", True]))
+            elif how == "m+1":
+                m = min(m + 1, _top(d))
+            elif how == "m-1":
+                m = max(m - 1, 2)
+            elif how == "m+2":
+                m = min(m + 2, _top(d))
+            elif how == "fresh":
+                d = draw(st.sampled_from([2, 3]))
+                m = draw(st.integers(2, _top(d)))
+                op = draw(st.sampled_from(_ops(d)))
+        mut = draw(st.sampled_from(["none", "zero", "negate", "reverse", "plus7"]))
+        steps.append({"step": "wv", "d": d, "numofq": m, "onlypositive": op, "mutate": mut})
+        if nsq < 2 and draw(st.integers(0, 2)) == 0:
+            # an sq(...) built on the default set; preferably for exactly the arguments of the call just made
+            sm, sop = m, op
+            if d != d0 or draw(st.integers(0, 3)) == 0:
+                sm = draw(st.integers(2, _top(d0)))
+                sop = draw(st.sampled_from(_ops(d0)))
+            if sop is not False:
+                sm = max(sm, 4)
+            steps.append({"step": "sq", "numofq": sm, "onlypositive": sop, "qrange": _range_for(draw, L, sm)})
+            nsq += 1
+    steps.append(dict(steps[0], mutate="none"))  # the first call once more, after everything else
+    return {"system": sysc, "steps": steps}
+
+
+def _mutate_returned(a, how):
+    """What a caller may do with an array it was handed."""
+    if how == "none" or not isinstance(a, np.ndarray) or a.size == 0 or not a.flags.writeable:
+        return False
+    if how == "zero":
+        a[...] = 0
+    elif how == "negate":
+        np.negative(a, out=a)
+    elif how == "reverse":
+        a[...] = a[::-1, ::-1].copy()
+    else:
+        a += 7
+    return True
+
+
+def check_wavevector_calls(case):
+    sysc = case["system"]
+    d0 = sysc["d"]
+    L = np.diag(sysc["cell"]["H"])
+    seen = []  # (d, numofq, onlypositive, mutated, source)
+    tags = set()
+    nonempty = False
+    sqinfo = None
+    for k, stp in enumerate(case["steps"]):
+        if stp["step"] == "wv":
+            key = (stp["d"], stp["numofq"], stp["onlypositive"])
+            try:
+                want, ret = _default_set_call(stp)
+            except Violation as v:
+                raise Violation(f"[call {k + 1} of {len(case['steps'])}, after "
+                                f"{[(s[0], s[1], s[2]) for s in seen]}] {v}") from None
+            nonempty = nonempty or bool(want)
+            mutated = _mutate_returned(ret, stp["mutate"])
+            src = "wv"
+        else:
+            m, op = stp["numofq"], stp["onlypositive"]
+            key = (d0, m, op)
+            x = stp["qrange"] * 2.0 / (2.0 * np.pi / L).min()
+            if abs(x - round(x)) < 1e-6 or int(x) != m:
+                tags.add("sq-step-skipped-numofq-ambiguous")
+                continue
+            sub = dict(sysc, mode="range", onlypositive=op, m=m, qrange=stp["qrange"])
+            try:
+                sqinfo = check_range(sub)
+            except Violation as v:
+                raise Violation(f"[sq(qrange) as call {k + 1} of {len(case['steps'])}, after "
+                                f"{[(s[0], s[1], s[2]) for s in seen]}] {v}") from None
+            nonempty = True
+            mutated = False
+            src = "sq"
+        for (pd_, pm, pop, pmut, psrc) in seen:
+            same_op = type(pop) is type(key[2]) and pop == key[2]
+            if (pd_, pm) == key[:2] and same_op:
+                tags.add("pair:same-arguments")
+                if pmut:
+                    tags.add("pair:same-arguments-after-caller-mutated-result")
+                if src == "sq" and psrc == "wv":
+                    tags.add("sq-after-identical-call")
+                if src == "wv" and psrc == "sq":
+                    tags.add("call-after-identical-sq")
+            elif (pd_, pm) == key[:2]:
+                tags.add("pair:differs-in-onlypositive-only")
+            elif pd_ == key[0] and same_op and pm // 2 == key[1] // 2:
+                tags.add("pair:same-half-width-other-numofq")
+            elif pd_ == key[0] and same_op:
+                tags.add("pair:differs-in-numofq-only")
+            elif pd_ != key[0] and pm == key[1] and same_op:
+                tags.add("pair:differs-in-ndim-only")
+        seen.append(key + (mutated, src))
+    related = any(t.startswith("pair:") for t in tags)
+    tags.add(f"calls={min(len(seen), 7)}")
+    tags.add("with-sq" if any(s[4] == "sq" for s in seen) else "without-sq")
+    if any(s[3] for s in seen):
+        tags.add("caller-mutated-a-result")
+    if sqinfo is not None:
+        tags.update(t for t in sqinfo["tags"] if t.startswith(("K", "labels-")))
+    return {"nontrivial": bool(related and nonempty), "tags": sorted(tags), "extra": {"calls": len(seen)}}
+
+
+def describe_wavevector(case):
+    return {"steps": [{k: v for k, v in s.items()} for s in case["steps"]], "system": describe(case["system"])}
+
+
 FACETS = [
     Facet("explicit_vectors", explicit_case(), check_explicit, quick=1200, thorough=40000, describe=describe,
           shards_quick=4, rule="explicit integer qvector lists; non-trivial as in RULE"),
@@ -444,6 +913,26 @@ FACETS = [
           rule="simple / centred lattices with m_k cells per axis, optional second species on the centres: closed-form "
                "Bragg-peak values; non-trivial = the list holds Bragg and non-Bragg vectors"),
     _enum,
+    Facet("minimal_sizes", minimal_case(), check_minimal, quick=600, thorough=20000, describe=describe_minimal,
+          shards_quick=2,
+          rule="smallest inputs the statement still defines: N = K (every species one particle), N = 1, N = 2, one "
+               "species with a single particle, K = 6 with N <= 8, 1..3 frames (per-frame labels included) x one wave "
+               "vector / one |q| group / two groups / the smallest qrange whose documented default set is not empty "
+               "(numofq 2,3 for the full set, 4,5 with onlypositive); non-trivial = compared (not excluded)"),
+    Facet("repeat_calls", repeat_case(), check_repeat, quick=400, thorough=15000, describe=describe_repeat,
+          shards_quick=2,
+          rule="several sq objects in one process: getresults() twice on one object; two different Snapshots objects "
+               "(also of identical shapes) alternately; ONE Snapshots object whose positions / label arrays are "
+               "overwritten in place between constructions; same-shaped qvector arrays with other contents; one "
+               "qvector array overwritten in place; every result equals the definition for the contents at call "
+               "time; non-trivial = the two inputs have different expected results (or getresults() twice)"),
+    Facet("wavevector_calls", wavevector_case(), check_wavevector_calls, quick=400, thorough=15000,
+          describe=describe_wavevector, shards_quick=2,
+          rule="3..9 calls of choosewavevector(ndim, numofq, onlypositive) in one process whose arguments differ in "
+               "one argument / not at all, each returned array overwritten by the caller afterwards, interleaved with "
+               "sq(..., qrange, onlypositive) objects using the same arguments: every call returns the enumerated "
+               "documented set and every sq equals the definition; non-trivial = two calls are identical or differ "
+               "in exactly one argument and some expected set is not empty"),
 ]
 
 MANIFEST = {
